@@ -24,7 +24,7 @@ theorem HFrame.trans {a b c : World} {p : Nat} (h₁ : HFrame a b p) (h₂ : HFr
 /-- one bookkeeping step: a persistent Stream operation on the field, then the field is overwritten -/
 theorem httpStep_frame {w : World} {p : Nat} {r : World × Nat} (hr : StrRes w r) :
     HFrame w (r.1.setStrHdr p (r.1.strHdr r.2)) p := by
-  refine ⟨hr.1.le.arrs, hr.1.le.maps, hr.1.le.sets, ?_, ?_, setStrHdr_wf hr.1.wf p (strHdr_arr_lt hr.1.wf _)⟩
+  refine ⟨hr.1.le.arrs, hr.1.le.maps, hr.1.le.sets, ?_, ?_, setStrHdr_wf hr.1.wf p (strHdr_ok hr.1.wf _)⟩
   · simpa [setStrHdr] using hr.1.le.strs.length_le
   · intro q hq hne
     rw [← strHdr_le hr.1.le hq]
@@ -51,7 +51,7 @@ theorem httpRemove_frame (ids : List Int) : ∀ {w : World}, Wf w → ∀ {p : N
     exact h₁.trans h₂
 
 theorem httpClear_frame {w : World} (hw : Wf w) (p : Nat) : HFrame w (w.httpClear p) p := by
-  refine ⟨List.prefix_refl _, List.prefix_refl _, List.prefix_refl _, ?_, ?_, setStrHdr_wf hw p hw.arr0⟩
+  refine ⟨List.prefix_refl _, List.prefix_refl _, List.prefix_refl _, ?_, ?_, setStrHdr_wf hw p (sliceOk_nil hw.arr0)⟩
   · simp [httpClear, setStrHdr]
   · intro q _ hne
     simp [httpClear, setStrHdr, strHdr, List.getD_eq_getElem?_getD, List.getElem?_set, Ne.symm hne]
